@@ -507,6 +507,13 @@ func (x *executor) doCall(ti, ci int, ctx *callCtx) {
 				}
 			}
 		}
+		if call.CarryAll && ref.outObjs != nil && len(ref.flavour) == 0 {
+			for _, on := range sortedKeys(ref.outObjs) {
+				if ot := ref.outObjs[on]; ot != nil && in[on] == nil && val.Snap(ot).Bad == "" {
+					in[on] = ot
+				}
+			}
+		}
 	case KPiece:
 		if call.RetryOf > 0 {
 			// the caller retries an aborted piece with the same tensors
